@@ -743,15 +743,18 @@ PyObject* py_descriptors(PyObject* self, PyObject* args) {
     try {
 
         std::vector<surf_point> spoints;
+        // The array wrappers take (and drop) references: they are built before the
+        // GIL is released and destroyed after it is re-acquired.
+        const numpy::aligned_array<double> points_raw(points_arr);
+        const integral_image_type integral(array);
         { // no gil block
             gil_release nogil;
-            numpy::aligned_array<double> points_raw(points_arr);
             const unsigned npoints = points_raw.dim(0);
             std::vector<interest_point> points;
             for (unsigned int i = 0; i != npoints; ++i) {
                 points.push_back(interest_point::load(points_raw.data(i)));
             }
-            spoints = compute_descriptors(integral_image_type(array), points, npoints);
+            spoints = compute_descriptors(integral, points, npoints);
         }
 
         numpy::aligned_array<double> arr = numpy::new_array<double>(spoints.size(), surf_point::ndoubles);
